@@ -9,6 +9,12 @@ import "strings"
 type c05G struct {
 	N string `long:"n" env:"N" default:"D"`
 }
+type c05In struct {
+	N2 string `long:"n2" env:"N2" default:"D"`
+}
+type c05Out struct {
+	In c05In `group:"gin" env-namespace:"IN" namespace:"in"`
+}
 type c05Decl struct {
 	S  string            `long:"s" env:"ZS"`
 	Sd string            `long:"sd" env:"ZSD" default:"D"`
@@ -18,11 +24,12 @@ type c05Decl struct {
 	Md map[string]string `long:"md" env:"ZMD" env-delim:"," default:"d:1"`
 	P  *string           `long:"p" env:"ZP"`
 	G  c05G              `group:"g" env-namespace:"NS" namespace:"g"`
+	O  c05Out            `group:"gout" env-namespace:"OUT" namespace:"out"`
 }
 
-var c05Keys = []string{"s", "sd", "l", "ld", "m", "md", "p", "g.n"}
-var c05Env = []string{"ZS", "ZSD", "ZL", "ZLD", "ZM", "ZMD", "ZP", "NS_N"}
-var c05HasDef = []bool{false, true, false, true, false, true, false, true}
+var c05Keys = []string{"s", "sd", "l", "ld", "m", "md", "p", "g.n", "out.in.n2"}
+var c05Env = []string{"ZS", "ZSD", "ZL", "ZLD", "ZM", "ZMD", "ZP", "NS_N", "OUT_IN_N2"}
+var c05HasDef = []bool{false, true, false, true, false, true, false, true, true}
 
 func c05Kind(opt int) int { // 0 scalar, 1 slice, 2 map, 3 pointer
 	switch opt {
@@ -66,6 +73,9 @@ func c05Get(o *c05Decl, opt int) []string {
 			return []string{"<nil>"}
 		}
 		return []string{*o.P}
+	}
+	if opt == 8 {
+		return []string{o.O.In.N2}
 	}
 	return []string{o.G.N}
 }
@@ -121,6 +131,8 @@ func H_C05_rank(v *V) {
 			o.P = &x
 		case 7:
 			o.G.N = I
+		case 8:
+			o.O.In.N2 = I
 		}
 		switch kind {
 		case 0, 3:
@@ -153,6 +165,9 @@ func H_C05_rank(v *V) {
 	}
 	if opt == 7 {
 		iniText = "[g]\nN = " + N1 + "\n"
+	}
+	if opt == 8 {
+		iniText = "[gin]\nN2 = " + N1 + "\n"
 	}
 	if envState == 2 {
 		envText = ""
